@@ -87,7 +87,7 @@ func hangFeature(r *Result) string {
 			return "hang:eof-in-css-body"
 		case f == "lexHeaderParam":
 			return "hang:eof-in-header-param-type"
-		case strings.HasPrefix(f, "stringLexer"):
+		case strings.Contains(f, "stringLexer"):
 			return "hang:eof-in-string"
 		case f == "lexBlockComment":
 			return "hang:eof-in-block-comment"
